@@ -574,8 +574,8 @@ func (p *Proxy) handleConnectRequest(ctx *Context, req *http.Request, session *S
 		log.Errorf("martian: got error while flushing response back to client: %v", err)
 	}
 
-	copySync := func(w net.Conn, r io.Reader, donec chan<- bool) {
-		if _, err := io.Copy(w, r); err != nil && err != io.EOF {
+	copySync := func(w net.Conn, r io.Reader, touch func(), donec chan<- bool) {
+		if _, err := io.Copy(activityWriter{w, touch}, r); err != nil && err != io.EOF {
 			log.Errorf("martian: failed to copy CONNECT tunnel: %v", err)
 		}
 
@@ -598,10 +598,19 @@ func (p *Proxy) handleConnectRequest(ctx *Context, req *http.Request, session *S
 	// The proxy's timeout bounds how long the tunnel may be idle, not how long it
 	// may be in use: bytes passing in either direction extend the deadline of the
 	// client connection.
-	touch := func() { conn.SetDeadline(time.Now().Add(p.timeout)) }
+	// Bytes that reach the other end count as much as bytes that arrive: a receiver that reads
+	// slowly but steadily keeps the tunnel in use while the proxy is busy writing to it. The
+	// deadline is on both connections, so that an end which stays silent after the other one
+	// has finished does not hold the tunnel for ever.
+	touch := func() {
+		d := time.Now().Add(p.timeout)
+		conn.SetDeadline(d)
+		cconn.SetDeadline(d)
+	}
+	touch()
 	donec := make(chan bool, 2)
-	go copySync(cconn, activityReader{brw.Reader, touch}, donec)
-	go copySync(conn, activityReader{cconn, touch}, donec)
+	go copySync(cconn, activityReader{brw.Reader, touch}, touch, donec)
+	go copySync(conn, activityReader{cconn, touch}, touch, donec)
 
 	// Shutdown ends the tunnel. Nothing else would for as long as its two ends keep talking,
 	// and an idle one would hold up Close for a whole timeout.
@@ -800,6 +809,34 @@ func (p *Proxy) handle(ctx *Context, conn net.Conn, brw *bufio.ReadWriter) error
 		closing = errClose
 	}
 	return closing
+}
+
+// An activityWriter calls touch whenever bytes have been written. It writes in pieces, so that
+// progress towards a receiver that reads slowly is noticed while a large buffer is going out.
+type activityWriter struct {
+	io.Writer
+	touch func()
+}
+
+func (w activityWriter) Write(b []byte) (int, error) {
+	const piece = 4096
+	total := 0
+	for len(b) > 0 {
+		n := len(b)
+		if n > piece {
+			n = piece
+		}
+		m, err := w.Writer.Write(b[:n])
+		total += m
+		if m > 0 {
+			w.touch()
+		}
+		if err != nil {
+			return total, err
+		}
+		b = b[m:]
+	}
+	return total, nil
 }
 
 // An activityReader calls touch whenever a Read returns bytes.
